@@ -9,7 +9,9 @@ package main
 //     Timeout+RebalanceTimeout (Timeout+SessionTimeout) must be accepted — exactly one JoinGroup / SyncGroup is sent;
 //   - a JoinGroup answer held beyond Timeout+RebalanceTimeout is given up: the join fails and is retried (two JoinGroups);
 //   - a coordinator that goes silent ends the generation: the heartbeat that gets no answer fails after Timeout and the
-//     functions' context is cancelled ("ends it promptly … when a heartbeat fails").
+//     functions' context is cancelled ("ends it promptly … when a heartbeat fails").  The clock is generously scaled: in
+//     the run that matters Timeout is 40 ms and the session / rebalance time-outs are 3 s; the generation must have ended
+//     within Timeout + 1 s, and a run in which it is still alive after 2 s reports -2.
 //
 //	deadlines timeout=.. rebalance=.. session=.. joinheld=.. syncheld=..\tjoins=.. syncs=.. gen=ok|none hbend=<ms> leave=<member>
 
@@ -24,8 +26,7 @@ import (
 	gm "kvharness/internal/groupmock"
 )
 
-func scenarioDeadlines(joinHeld, syncHeld time.Duration) {
-	const timeout, rebalance, session = 40 * time.Millisecond, 250 * time.Millisecond, 150 * time.Millisecond
+func scenarioDeadlines(timeout, rebalance, session, joinHeld, syncHeld time.Duration) {
 	kafka.VerifSetSink(nil)
 	kafka.VerifSetGroupHandler(nil)
 	gb := gm.NewGBroker("t")
